@@ -126,25 +126,33 @@ def rule_MK3(ctx, rep):
 
 # ---------------------------------------------------------------------------------- MK4
 def _receivers_forms(fn, name, allowed_sources):
-    """All definitions of `name` are: the parameter itself, `range(m)` under `<name> is None`,
-    or a list()/[..] normalisation of itself."""
+    """All definitions of `name` are: the parameter itself, all parties (`range(m)`) exactly where `<name> is None`, or a
+    list() / [..] normalisation of itself -- whatever the spelling (statement or conditional expression, either polarity)."""
+    from . import cond, sem
     bad = []
     pm = parents(fn.node)
+    none_txt = cond.fmt(cond.formula(fn, ast.parse(f'{name} is None', mode='eval').body, fn.node.body[-1], pm))
     for st, v, how in definitions(fn.node, name):
         if v is None:
             bad.append(st)
             continue
-        txt = norm(v)
-        if txt == 'range(m)':
-            g = [(norm(i.test), br) for i, br in enclosing_ifs(st, pm, stop=fn.node)]
-            if (f'{name} is None', 'body') in g:
+        cx = cond.context(fn, st, pm)
+        okay = True
+        for g, leaf in cond.expr_cases(fn, v, st, pm, keep=(name,) + tuple(allowed_sources)):
+            full = cond.conj([cx, g])
+            if not cond.satisfiable(full):
                 continue
+            x = leaf
+            while (isinstance(x, ast.Call) and isinstance(x.func, ast.Name) and x.func.id in ('list', 'tuple') and len(x.args) == 1) or \
+                    (isinstance(x, ast.List) and len(x.elts) == 1):
+                x = x.args[0] if isinstance(x, ast.Call) else x.elts[0]
+            if isinstance(x, ast.Name) and (x.id == name or x.id in allowed_sources):
+                continue
+            if cnorm(sem.symx(sem.expand(fn, x, st, pm))) == 'range(M)' and none_txt in cond.implied(full):
+                continue
+            okay = False
+        if not okay:
             bad.append(st)
-            continue
-        names = {x.id for x in ast.walk(v) if isinstance(x, ast.Name)} - {'list', 'isinstance', 'int', 'range', 'len'}
-        if names <= set(allowed_sources) | {name} and name in names | set(allowed_sources):
-            continue
-        bad.append(st)
     return bad
 
 
